@@ -33,7 +33,13 @@ fn main() {
             "C16" => props::c16::replay(&v),
             "C17" => props::c17::replay(&v),
             "C03" | "C04" | "C07" | "C08" | "C14" => props::w4props::replay(&v),
-            "C05" | "C11" => props::w2props::replay(&v),
+            "C05" | "C11" => {
+                if v["replay"]["world"] == "w3-forged" {
+                    props::w3props::replay(&v)
+                } else {
+                    props::w2props::replay(&v)
+                }
+            }
             "C18" => props::c18::replay(&v),
             "C12" | "C15" => props::w2rprops::replay(&v),
             "C20" => props::c20::replay(&v),
